@@ -178,7 +178,6 @@ class Probe(Component):
     def _on_any(self, event, *args, **kwargs):
         self.log.append(('event', event.name, args))
 
-    _on_any.event = True
 
 
 def _attr(obj, name, default=None):
